@@ -67,6 +67,13 @@ func (m *ModuleInstance) closeModuleOnCanceledOrTimeout(ctx context.Context, can
 				// A context of another type may be done with an error of its own: it is done all the same.
 				_ = m.closeWithExitCodeWithoutClosingResource(sys.ExitCodeContextCanceled)
 			}
+			select {
+			case <-cancelChan:
+				// The call has ended meanwhile, possibly before the module was marked closed above: its
+				// last FailIfClosed may not have seen that, so nobody is left to close the resources.
+				_ = m.FailIfClosed()
+			default:
+			}
 		}
 	case <-cancelChan:
 	}
